@@ -2,6 +2,7 @@
 // @weave crates/bytecode/src/instruction_reader.rs
 #![allow(unused)]
 use super::*;
+use koto_parser::ConstantIndex;
 
 fn stub_format(_args: std::fmt::Arguments<'_>) -> String {
     String::new()
@@ -13,13 +14,31 @@ fn stub_random_state() -> std::hash::RandomState {
 
 const N: usize = 9;
 
+// LEB128 as the compiler's push_var_u32 writes it: 7 bits per byte, least significant group first, bit 7 = more follows.
+// Returns (value, bytes consumed), or None when the buffer ends inside the number.
+fn leb(b: &[u8], at: usize) -> Option<(u32, usize)> {
+    let mut value: u32 = 0;
+    let mut i = 0;
+    while i < 5 {
+        if at + i >= b.len() {
+            return None;
+        }
+        let byte = b[at + i];
+        value |= ((byte & 0x7f) as u32) << (7 * i as u32);
+        if byte & 0x80 == 0 {
+            return Some((value, i + 1));
+        }
+        i += 1;
+    }
+    None
+}
+
 // @props C05 C06
-// @fns InstructionReader::next (all 256 opcodes: every decoder arm, get_u8 / get_u8_array / get_u16 / get_var_u32 macros, out_of_bounds_access_error)
+// @fns InstructionReader::next: all 256 opcodes, every decoder arm, the get_u8 / get_u8_array / get_u16 / get_var_u32 macros, out_of_bounds_access_error; operand layout of the jump, constant-load, Function and StringPush instructions against the byte layout the compiler's encoders are checked to produce (c05_varint_encode, c05_jump_*, c05_string_format_flags)
 // @bound buffers of 0..=9 arbitrary bytes, reader at ip 0; var-ints at most 5 bytes long (bytes 5 and 6 carry no continuation bit), which is what push_var_u32 emits
-// @assume std::fmt::format stubbed (error messages are not the subject); var-int operands are at most 5 bytes (longer ones are never emitted by the compiler and overflow the decoder's shift)
+// @assume std::fmt::format stubbed (error messages are not the subject); var-int operands are at most 5 bytes (longer ones are never emitted by the compiler and would overflow the decoder's shift)
 // @timeout 3000
-// @mem 16
-// @tier thorough
+// @mem 20
 #[kani::proof]
 #[kani::unwind(11)]
 #[kani::stub(std::fmt::format, stub_format)]
@@ -27,6 +46,7 @@ const N: usize = 9;
 fn c05_decode_total() {
     let len: usize = kani::any();
     kani::assume(len <= N);
+    let mut copy = [0u8; N];
     let mut bytes: Vec<u8> = Vec::with_capacity(N);
     let mut i = 0;
     while i < N {
@@ -36,68 +56,73 @@ fn c05_decode_total() {
         }
         if i < len {
             bytes.push(b);
+            copy[i] = b;
         }
         i += 1;
     }
+    let b = &copy[..len];
     let chunk = Chunk { bytes, ..Default::default() };
     let mut reader = InstructionReader::new(Ptr::from(chunk));
     let instruction = reader.next();
+    let ip = reader.ip;
     match &instruction {
-        None => assert!(len < 2 && reader.ip == 0, "C05.decode: the reader only stops when fewer than two bytes remain"),
-        Some(_) => {
-            assert!(reader.ip >= 2 && reader.ip <= len, "C05.decode: decoding stays inside the buffer and consumes at least the op and its first operand");
+        None => assert!(len < 2 && ip == 0, "C05.decode: the reader only stops when fewer than two bytes remain"),
+        Some(ins) => {
+            assert!(ip >= 2 && ip <= len, "C05.decode: decoding stays inside the buffer and consumes at least the op and its first operand");
+            let le = |x: u8, y: u8| u16::from_le_bytes([x, y]);
+            match ins {
+                Instruction::Jump { offset } => assert!(b[0] == Op::Jump as u8 && ip == 3 && *offset == le(b[1], b[2]), "C05.decode: Jump is op + little-endian u16"),
+                Instruction::JumpBack { offset } => assert!(b[0] == Op::JumpBack as u8 && ip == 3 && *offset == le(b[1], b[2]), "C05.decode: JumpBack is op + little-endian u16"),
+                Instruction::JumpIfTrue { register, offset } => assert!(b[0] == Op::JumpIfTrue as u8 && ip == 4 && *register == b[1] && *offset == le(b[2], b[3]), "C05.decode: JumpIfTrue is op, register, little-endian u16"),
+                Instruction::JumpIfFalse { register, offset } => assert!(b[0] == Op::JumpIfFalse as u8 && ip == 4 && *register == b[1] && *offset == le(b[2], b[3]), "C05.decode: JumpIfFalse is op, register, little-endian u16"),
+                Instruction::JumpIfNull { register, offset } => assert!(b[0] == Op::JumpIfNull as u8 && ip == 4 && *register == b[1] && *offset == le(b[2], b[3]), "C05.decode: JumpIfNull is op, register, little-endian u16"),
+                Instruction::LoadFloat { register, constant } | Instruction::LoadInt { register, constant } | Instruction::LoadString { register, constant } | Instruction::LoadNonLocal { register, constant } => {
+                    let want_op = match ins {
+                        Instruction::LoadFloat { .. } => Op::LoadFloat,
+                        Instruction::LoadInt { .. } => Op::LoadInt,
+                        Instruction::LoadString { .. } => Op::LoadString,
+                        _ => Op::LoadNonLocal,
+                    };
+                    match leb(b, 2) {
+                        Some((v, n)) => assert!(b[0] == want_op as u8 && *register == b[1] && u32::from(*constant) == v && ip == 2 + n, "C05.decode: constant loads are op, register, LEB128 constant index"),
+                        None => assert!(false, "C05.decode: a constant load only decodes when its var-int is complete"),
+                    }
+                }
+                Instruction::Function { register, arg_count, optional_arg_count, capture_count, flags, size } => {
+                    assert!(b[0] == Op::Function as u8 && ip == 8 && *register == b[1] && *arg_count == b[2] && *optional_arg_count == b[3] && *capture_count == b[4]
+                        && u8::from(*flags) == b[5] && *size == le(b[6], b[7]), "C05.decode: Function is op, register, three counts, flags, little-endian size");
+                }
+                Instruction::StringPush { value, format_options: None } => assert!(b[0] == Op::StringPush as u8 && *value == b[1] && b[2] == 0 && ip == 3, "C05.decode: StringPush without options is op, value, 0"),
+                Instruction::StringPush { value, format_options: Some(o) } => {
+                    let f = b[2];
+                    let mut at = 3;
+                    let mut ok = b[0] == Op::StringPush as u8 && *value == b[1] && f != 0 && f < 64 && (o.alignment as u8) == (f & 3);
+                    if f & 4 != 0 {
+                        match leb(b, at) { Some((v, n)) => { ok &= o.min_width == Some(v); at += n } None => ok = false }
+                    } else { ok &= o.min_width.is_none() }
+                    if f & 8 != 0 {
+                        match leb(b, at) { Some((v, n)) => { ok &= o.precision == Some(v); at += n } None => ok = false }
+                    } else { ok &= o.precision.is_none() }
+                    if f & 16 != 0 {
+                        match leb(b, at) { Some((v, n)) => { ok &= o.fill_character.map(u32::from) == Some(v); at += n } None => ok = false }
+                    } else { ok &= o.fill_character.is_none() }
+                    if f & 32 != 0 {
+                        ok &= at < len && o.representation.map(|r| r as u8) == Some(b[at]);
+                        at += 1;
+                    } else { ok &= o.representation.is_none() }
+                    assert!(ok && ip == at, "C05.decode: StringPush is op, value, flags, then width, precision, fill (LEB128) and representation in that order, each present iff its flag bit is set");
+                }
+                _ => {}
+            }
         }
     }
     kani::cover!(matches!(&instruction, Some(Instruction::Function { .. })), "a Function instruction (8 bytes) decodes");
     kani::cover!(matches!(&instruction, Some(Instruction::Error { .. })) && len == N, "an Error instruction on a full buffer");
     kani::cover!(matches!(&instruction, Some(Instruction::JumpBack { .. })), "a JumpBack decodes");
+    kani::cover!(matches!(&instruction, Some(Instruction::StringPush { format_options: Some(o), .. }) if o.min_width.is_some() && o.representation.is_some()), "a StringPush with width and representation decodes");
+    kani::cover!(matches!(&instruction, Some(Instruction::LoadInt { constant, .. }) if u32::from(*constant) > 1 << 28), "a five-byte constant index decodes");
     std::mem::forget(instruction);
     std::mem::forget(reader);
-}
-
-fn decode_jump(which: u8) {
-    let lo: u8 = kani::any();
-    let hi: u8 = kani::any();
-    let reg: u8 = kani::any();
-    let want = u16::from_le_bytes([lo, hi]);
-    let bytes = match which {
-        0 => vec![Op::Jump as u8, lo, hi],
-        1 => vec![Op::JumpBack as u8, lo, hi],
-        2 => vec![Op::JumpIfTrue as u8, reg, lo, hi],
-        3 => vec![Op::JumpIfFalse as u8, reg, lo, hi],
-        _ => vec![Op::JumpIfNull as u8, reg, lo, hi],
-    };
-    let len = bytes.len();
-    let chunk = Chunk { bytes, ..Default::default() };
-    let mut reader = InstructionReader::new(Ptr::from(chunk));
-    let instruction = reader.next();
-    let ok = match (&instruction, which) {
-        (Some(Instruction::Jump { offset }), 0) => *offset == want,
-        (Some(Instruction::JumpBack { offset }), 1) => *offset == want,
-        (Some(Instruction::JumpIfTrue { register, offset }), 2) => *register == reg && *offset == want,
-        (Some(Instruction::JumpIfFalse { register, offset }), 3) => *register == reg && *offset == want,
-        (Some(Instruction::JumpIfNull { register, offset }), 4) => *register == reg && *offset == want,
-        _ => false,
-    };
-    assert!(ok && reader.ip == len, "C05.decode: jump instructions decode their little-endian offset and consume exactly their bytes");
-    kani::cover!(want == 65535, "offset 65535");
-    std::mem::forget(instruction);
-    std::mem::forget(reader);
-}
-
-// @props C05
-// @fns InstructionReader::next (Jump, JumpBack, JumpIfTrue, JumpIfFalse, JumpIfNull arms), get_u16
-// @bound all 16-bit offsets and registers, each of the five jump opcodes (concrete opcode per block so that the decoder's dispatch is pruned); little-endian operand order as the compiler's placeholder patching writes it
-#[kani::proof]
-#[kani::unwind(6)]
-#[kani::stub(std::fmt::format, stub_format)]
-#[kani::stub(std::hash::RandomState::new, stub_random_state)]
-fn c05_decode_jumps() {
-    decode_jump(0);
-    decode_jump(1);
-    decode_jump(2);
-    decode_jump(3);
-    decode_jump(4);
 }
 
 // @props C05
